@@ -71,7 +71,8 @@ PROP = dict(
                            "monitor:frame-compared": 80000, "monitor:sequence-complete": 25000,
                            "exact:cobs": 2000, "exact:cobs_r": 2000, "exact:cobs_zpe": 2000, "exact:cobs_zpe_r": 2000,
                            "exact:delimiter-does-not-fit": 8000, "exact:refused": 10000, "exact:just-fits": 2000,
-                           "monitor:reply-after-refusal": 10000}),
+                           "monitor:reply-after-refusal": 10000,
+                           "exact:plain": 2000, "reply:during-unfinished-plain-message": 5000}),
               dict(name="c12_sync", src=["c12_sync.c"], libs=["mptio", "mptcore"], batch=512, timeout=200,
                    floors={"mpt_stream_sync": 40000, "sync:two-or-more-pending": 30000, "peer:replies-sent": 150000,
                            "monitor:reply-body-compared": 150000, "monitor:reply-delivery-accounted": 150000,
